@@ -232,9 +232,29 @@ S7Set ==
      \cup {twice(T16, TTup(<<T8, T8>>)), twice(TTup(<<T8, T8>>), T16), twice(TBool, TU(1)), twice(TArr(T8, 2), T16),
            twice(T16, T16), twice(TTup(<<T8, T8>>), TTup(<<T8, T8>>))}
 
-StFamilies == {[s |-> i] : i \in 1..7}
+\* S8: "integer literals fit" at every width: decimal literals around 2^N (every value 0 .. 2^(N+1) for the sub-byte widths),
+\* written plainly, with a separator, with leading zeros; binary / hexadecimal literals of the right, a shorter and a longer
+\* digit count; the same literals as a tuple component, an array element and a call argument --------------------------------
+S8Set ==
+  LET m(ss) == <<Main(Blk(ss))>>
+      D(str) == EDec(str)
+      at(t, e) == {m(<<SLet(PId("r"), t, e)>>),
+                   m(<<SLet(PId("r"), TTup(<<T8, t>>), ETuple(<<Dec(1), e>>))>>),
+                   m(<<SLet(PId("r"), TArr(t, 2), EArray(<<e, e>>))>>),
+                   m(<<SLet(PId("r"), TOpt(t), ESome(e))>>)}
+      small(N) == UNION {at(TU(N), Dec(v)) : v \in 0..(2 * Pow2(N))}
+      edge(N) == UNION {at(TU(N), Dec(v)) : v \in {0, 1, Pow2(N) - 2, Pow2(N) - 1, Pow2(N), Pow2(N) + 1, 2 * Pow2(N) - 1, 2 * Pow2(N)}}
+      wide == UNION {at(TU(32), D(<<"4", "2", "9", "4", "9", "6", "7", "2", "9", d>>)) : d \in {"4", "5", "6", "7"}}
+              \cup UNION {at(TU(64), D(<<"1", "8", "4", "4", "6", "7", "4", "4", "0", "7", "3", "7", "0", "9", "5", "5", "1", "6", "1", d>>)) : d \in {"4", "5", "6", "7"}}
+              \cup at(TU(32), D(<<"0", "0", "4", "2", "9", "4", "9", "6", "7", "2", "9", "6">>))
+              \cup at(TU(32), D(<<"4", "_", "2", "9", "4", "_", "9", "6", "7", "_", "2", "9", "5">>))
+      bins == UNION {at(TU(N), EBin(Rep("1", n))) : N \in {1, 2, 4, 8}, n \in {1, 2, 3, 4, 5, 7, 8, 9}}
+      hexs == UNION {at(TU(N), EHex(Rep("f", n))) : N \in {4, 8, 16}, n \in {1, 2, 3, 4, 5}}
+  IN UNION {small(N) : N \in {1, 2, 4}} \cup UNION {edge(N) : N \in {8, 16}} \cup wide \cup bins \cup hexs
+
+StFamilies == {[s |-> i] : i \in 1..8}
 StProgramsOf(f) ==
-  LET S == CASE f.s = 1 -> S1Set [] f.s = 2 -> S2Set [] f.s = 3 -> S3Set [] f.s = 4 -> S4Set [] f.s = 5 -> S5Set [] f.s = 6 -> S6Set [] f.s = 7 -> S7Set
+  LET S == CASE f.s = 1 -> S1Set [] f.s = 2 -> S2Set [] f.s = 3 -> S3Set [] f.s = 4 -> S4Set [] f.s = 5 -> S5Set [] f.s = 6 -> S6Set [] f.s = 7 -> S7Set [] f.s = 8 -> S8Set
       \* witnesses / parameters of an accepted near miss get all-zero values (one run)
       mk(it, an) ==
         LET wn == IF IsErr(an) THEN <<>> ELSE SetToSeq(DOMAIN an.wits)
